@@ -23,7 +23,7 @@ from vkit.gen import g2, g3
 from vkit.gen.choice import from_bytes
 from vkit.harness.incremental import Assembler, defer_nesting, run_incremental
 from vkit.harness.resolvers import AsyncPlan
-from vkit.harness.sched import Hang
+from vkit.harness.sched import Hang, StepLimit
 from vkit.ref import execute as R5
 
 ID = "C04"
@@ -164,6 +164,8 @@ def eval_request(env, sc, op_name, vardefs, variables, oseed, density, plan_spec
     except Hang as h:
         bad("hang", str(h))
         return vs, None, None
+    except StepLimit:
+        return vs, None, None  # inconclusive
     except Exception as e:  # noqa: BLE001
         bad("execute-raises", f"{type(e).__name__}: {e}")
         return vs, None, None
@@ -277,11 +279,40 @@ def _scenarios(nex, n_sched):
     return fn
 
 
+def _long_streams(nex):
+    """Streamed lists longer than the capacity (100) of the stream item queue, read to the end: the items of
+    the initial list plus all `items` batches are exactly 0..n-1 in order (generator and run function are
+    shared with C06's back-pressure sub-check, which checks the stop invariants on the same runs)."""
+    from checks import c06
+
+    def fn(ctx, shard, nshards):
+        def body(case):
+            case = dict(case, stop={"kind": "none"})
+            if case["fail_at"] is not None:
+                case["fail_at"] = None
+            vs, n, nt = c06.eval_backpressure(case, prop="C04")
+            ctx.count(n)
+            ctx.cls("long-stream:" + case["source"] + (":early" if case["early"] else ":lazy"))
+            if nt:
+                ctx.nontriv({k_: case[k_] for k_ in ("n", "initial", "doc", "source", "gated", "early")}, "long-stream")
+            ctx.check(vs)
+
+        given_run(ctx, from_bytes(c06.g_backpressure, 256), body, max_examples=nex)
+
+    return fn
+
+
 def subchecks(tier):
     if tier == "quick":
-        return [Sub("scenarios", _scenarios(350, 4), shards=14)]
-    return [Sub("scenarios", _scenarios(4000, 12), shards=16)]
+        return [Sub("scenarios", _scenarios(350, 4), shards=13, weight=4),
+                Sub("long_streams", _long_streams(120), shards=3, weight=1)]
+    return [Sub("scenarios", _scenarios(4000, 12), shards=16, weight=4),
+            Sub("long_streams", _long_streams(2000), shards=16, weight=1)]
 
 
 def replay(case):
+    if "gated" in case and "n" in case:
+        from checks import c06
+
+        return c06.eval_backpressure(case, prop="C04")[0]
     return eval_scenario(case)[0]
